@@ -258,6 +258,17 @@ func runCheck(repo, verif, prop, tier string, workers int, verbose bool) int {
 		if ob != nil && !ob.IsSat && f.Kind != "lemma" && f.Kind != "table" {
 			cex, confirmed = eng.counterexample(verif, repo, prop, ob)
 		}
+		if f.Kind == "bounded" && f.Status == "failed" && f.Desc != "" && !strings.HasSuffix(f.Name, "/run") {
+			// a bounded stand-in runs the real code: its failing case is a failing input
+			// observed on the real code (re-run the stand-in's command to see it again)
+			confirmed = true
+			cex = map[string]interface{}{"failing_case": f.Desc, "observed_by": "bounded stand-in " + f.Unit + " on the real code of this tree"}
+			for _, b := range ps.Bounded {
+				if b.Name == f.Unit {
+					cex["rerun"] = "cd /verif && " + b.Cmd
+				}
+			}
+		}
 		rec := map[string]interface{}{
 			"property": prop, "obligation": f.Name, "kind": f.Kind, "location": f.Pos, "clause": f.Desc,
 			"solver_status": f.Status, "solver_output": f.Output, "reason": f.Reason, "unit": f.Unit,
